@@ -10,6 +10,7 @@ import EtVerif.Driver.Compute
 import EtVerif.Driver.OapiD
 import EtVerif.Driver.GrpcD
 import EtVerif.Driver.FeD
+import EtVerif.Driver.C12D
 
 open EtVerif EtVerif.Driver
 
@@ -32,6 +33,7 @@ def judgeLine (line : String) : String :=
          else if op == "bytes" then judgeBytes
          else throw s!"unknown op {op}")
       | "C10" => judgeC10 op
+      | "C12" => (if op == "hist" then judgeMmapHist else throw s!"unknown op {op}")
       | "C11" => judgeC11 op
       | "C08" => judgeC08 op
       | "C04" => judgeC04 op
